@@ -24,6 +24,8 @@ structure Good (rows : List CRow) (outF : List OutEdge) : Prop where
     ∀ e ∈ (outF.filter (·.src = j)).filter (fun e => !e.cond.blank), e.cond.var = implVar (outF.filter (·.src = j))
   names : ∀ (j : Nat) (c : CRow), rows[j]? = some c → isTestKind (kindOf c.row.type) →
     namesOk (kindOf c.row.type) (timeoutOf c.row) [] (testsOf (kindOf c.row.type) (outF.filter (·.src = j))) = true
+  /-- the merged rows are marked -/
+  annot : Annot rows
 
 /-- per source row: `l` is a prefix of the out-edges of row `j` -/
 theorem Good.nodup_prefix {rows : List CRow} {outF l : List OutEdge} (g : Good rows outF) (j : Nat)
